@@ -683,7 +683,7 @@ def server_fingerprint(server):
 
 
 # ---------------------------------------------------------------- a frozen event loop is an observation
-LOOP_BUDGET = float(os.environ.get("C17_LOOP_BUDGET", "5"))  # wall seconds one run of a schedule may take (normal: 0.01 .. 0.5 s)
+LOOP_BUDGET = float(os.environ.get("C17_LOOP_BUDGET", "4"))  # wall seconds one run of a schedule may take (normal: 0.01 .. 0.5 s)
 
 
 class LoopBlocked(KeyboardInterrupt):
@@ -1589,7 +1589,7 @@ def check_case(ctx, fam, n, dirs, schedule, cfg, mo=None, verbose=False):
             ctx.obligation_broken("per-socket-objects", f"{key}: {what}")
     bad = [b for b in bad if not b[0].startswith("c17-mech-")]
     for key, what, extra in bad[:1]:
-        if not verbose and len(ctx.violations) < 3:
+        if not verbose and len(ctx.violations) < 3 and not (key.startswith("c17-event-loop-blocked") and any(v["replay"].get("key", "").startswith("c17-event-loop-blocked") for v in ctx.violations)):
             small = shrink(n, dirs, schedule, cfg, key)
             if len(small) < len(schedule):
                 res2 = run_impl(n, small, cfg)
@@ -1693,7 +1693,10 @@ def correspondence(ctx, budget=None):
         "AsyncPathIO on a subset, block sizes 8..256, optional port pool; (3) a peer that stops reading its CONTROL channel and pipelines "
         "commands until its replies no longer fit the server's write buffer while the others work and a new session connects late; "
         "(4) per-connection speed limits (of the user, of the server): same-user / other-user sessions transfer at the same time, every "
-        "reply instant on the virtual clock is compared with a time-aligned solo run. Non-trivial = distinct (schedule, configuration)."
+        "reply instant on the virtual clock is compared with a time-aligned solo run; (5) two listings at once (one suspended mid-listing); "
+        "(6) a command line of raw non-UTF-8 bytes in one session at every point of another session's work with non-ASCII names. Every run "
+        "of a schedule is under a wall-clock watchdog, the whole stream in a supervised child process: a frozen event loop is reported as "
+        "a violation with the schedule. Non-trivial = distinct (schedule, configuration)."
     )
     jobs = gen_jobs(rng, thorough, budget)
     ctx.extra.setdefault("dynamic_writes", {})
